@@ -543,6 +543,8 @@ FLOAT_KINDS = ['pattern', 'pattern', 'f64', 'decimal', 'int', 'pow2', 'edge']
 
 
 def run_floats(shard, nshards, tier, seed, ev):
+    import sys
+    from vlib.run import judge
     rng = random.Random(seed)
     count = 2000 if tier == 'quick' else 150000
     nt = done = 0
@@ -550,8 +552,9 @@ def run_floats(shard, nshards, tier, seed, ev):
         n = 4 if i % 2 == 0 else 8
         x = float_from(rng.choice(FLOAT_KINDS), n, rng.getrandbits(40), rng.getrandbits(64))
         case = {'u': 'num', 't': '!' if n == 4 else '#', 'x': x}
-        res = check_num(case, Result())
+        res = judge(sys.modules[__name__], case, 30.0)
         done += 1
+        ev.inconclusive += bool(res.inconclusive)
         nt += bool(res.nontrivial)
         ev.excluded += res.excluded
         for lab in res.labels:
@@ -708,4 +711,5 @@ KILLS = [
     'codepage.py _from_unicode drops mapped characters >= U+0400 -> str.unicode.encode + str.unicode.roundtrip (scalars)',
     'implementation.py evaluate returns the value rounded to single -> eval.number (evaluate)',
     'numbers.py Float.from_value frexp patch applied -> excluded_known drops to 0 (the open finding is the only source of exclusions)',
+    'fix dca85c97 reverse-applied -> set.single.below-pow2-loses-bit (floats unit)',
 ]
